@@ -3,6 +3,7 @@
      crates/searcher/src/searcher/core.rs   Core::is_line_by_line_fast
      crates/searcher/src/searcher/mod.rs    Config::max_context, Searcher::multi_line_with_matcher,
                                             Searcher::slice_needs_transcoding
+     crates/searcher/src/searcher/core.rs   Core::detect_binary (its return value)
      crates/searcher/src/searcher/glue.rs   ReadByLine::should_binary_quit
      crates/printer/src/summary.rs          SummaryKind::{requires_path, requires_stats, quit_early},
                                             SummarySink::should_quit
@@ -15,7 +16,7 @@
    when the current source text cannot be translated (the owning check then reports the broken tie);
    Proofs/GenLibProofs.v proves generated = the model definitions of Model/SearcherCore.v, Glue.v,
    SearcherGlue.v, Decode.v, Summary.v, Standard.v, Json.v, IgnoreDir.v, Walk.v.  Definitions only. *)
-From RG Require Import Base.Bytes Base.LineTerm Model.Summary.
+From RG Require Import Base.Bytes Base.LineTerm Model.Summary Model.LineBufferBin.
 Local Open Scope bool_scope.
 
 (* `non_matching` is matcher.non_matching_bytes(): None, or the membership test of the ByteSet *)
@@ -97,3 +98,19 @@ Definition par_should_skip_filtered_expected (filter : option filter_box) : bool
   match filter with Some (FilterBox keep) => negb keep | None => false end.
 Definition par_send_expected (should_skip_filesize should_skip_filtered : bool) : bool :=
   negb should_skip_filesize && negb should_skip_filtered.
+
+(* Core::detect_binary: the value it returns (true = stop searching this buffer), as a function of
+   binary_byte_offset.is_some(), config.binary.quit_byte().is_some(), config.binary.0, range.start(),
+   `buf[*range].find_byte(b)` as a function of b, and the Ok value of self.binary_data(offset) as a function of the
+   offset.  (The assignment to binary_byte_offset and the Err exit are not part of this decision.) *)
+Definition detect_binary_result_expected (offset_is_some quit_byte_is_some : bool) (mode : bin_mode) (range_start : nat)
+    (find_byte : byte -> option nat) (binary_data : nat -> bool) : bool :=
+  if offset_is_some then quit_byte_is_some else
+  match mode with
+  | BNone => false
+  | BQuit b | BConvert b =>
+    match find_byte b with
+    | Some i => if negb (binary_data (range_start + i)) then true else quit_byte_is_some
+    | None => false
+    end
+  end.
